@@ -33,13 +33,37 @@ APPLY = ct.APPLY_METHODS
 import recorders_C04 as R
 
 OBLIGATIONS = [
-    # Part A: any class table
+    # Part A: any class table (regenerated each run)
+    "SkVerif.C04.ctorOK_unfold",
     "SkVerif.C04.wf_getParams_eq_args",
     "SkVerif.C04.ctor_missing_param_absent",
     "SkVerif.C04.fresh_not_fitted",
     "SkVerif.C04.guarded_method_unfitted_raises_NotFitted",
     "SkVerif.C04.summary_guarded_raises_NotFitted",
     "SkVerif.C04.fit_frame",
+    # Part B: any parameter tree
+    "SkVerif.C04.getParams_shallow_returns_params",
+    "SkVerif.C04.getParams_deep_has_params",
+    "SkVerif.C04.nested_get_reads_component",
+    "SkVerif.C04.nested_get_reads_named_component",
+    "SkVerif.C04.component_readable_by_name",
+    "SkVerif.C04.wf_setParams_getParams_id",
+    "SkVerif.C04.wf_setParams_getParams_id_meta",
+    "SkVerif.C04.setParams_bare_writes_only_that_param",
+    "SkVerif.C04.setParams_unknown_rejected",
+    "SkVerif.C04.setParams_unknown_rejected_meta",
+    "SkVerif.C04.nested_set_writes_component",
+    "SkVerif.C04.nested_set_writes_named_component",
+    "SkVerif.C04.replace_component_by_name",
+    "SkVerif.C04.setParams_order_list_then_component",
+    "SkVerif.C04.setParams_order_bare_then_nested",
+    "SkVerif.C04.wf_clone_params_eq",
+    "SkVerif.C04.clone_unfitted",
+    "SkVerif.C04.clone_same_keys",
+    "SkVerif.C04.checkNames_rejects",
+    "SkVerif.C04.checkNames_accepts",
+    "SkVerif.C04.fit_returns_self_sets_fitted",
+    "SkVerif.C04.apply_unfitted_raises",
 ]
 TRUSTED = [
     "harness/extract/classtable.py (AST translator: source -> ClassTable/GuardTable/FitWrites); cross-checked per importable class against the running class (parameters, MRO, get_params implementation, observed constructor / guard / fit behaviour)",
